@@ -485,11 +485,18 @@ Inductive op :=
 | OData (n : name) (w : N) (fresh : option N) (tok : option N)
 | OTick                                                               (* PitCsTable.Update *)
 | ODnl                                                                (* DeadNonceList.RemoveExpiredEntries *)
-| OMgmtCap (u : N).                                                   (* cs/config command with Capacity = u handled by fw/mgmt/cs.go *)
+| OMgmtCap (u : N)                                                    (* cs/config command with Capacity = u handled by fw/mgmt/cs.go *)
+| OStaleRemove (id : N) (n : name).                                   (* RemoveInterest on a handle whose entry (id, at name n) is no longer in the table *)
 
 (* fw/mgmt/cs.go ContentStoreModule.config carrying a Capacity (uint64 on the wire): a value above math.MaxInt is refused
    (400) and nothing changes; otherwise table.SetCsCapacity(int(capacity)) *)
 Definition mgmt_cap (s : st) (u : N) : st := if (max_int <? u)%N then s else set_cap s (cap_of_int (Z.of_N u)).
+
+(* PitCsTree.RemoveInterest called with a stale handle: the entry `id` (created under name n) was removed earlier (reaper), the
+   handle was kept.  The code walks the pitEntries of the handle's node, finds nothing, returns false; the model evaluates the
+   same RemoveInterest on an entry value that is in no node.  (Handles of live entries are not removed this way.) *)
+Definition stale_remove (s : st) (id : N) (n : name) : st :=
+  if mem_N id (tokmap s) then s else remove_interest s (mkpit id n false false [] [] 0 false false).
 
 Inductive res := RNone | RFind (c : list csent) | RInt (k : N) (c : list csent).
 
@@ -505,6 +512,7 @@ Definition step (s : st) (o : op) : st * res :=
   | OTick => (pit_update s, RNone)
   | ODnl => (dnl_sweep s, RNone)
   | OMgmtCap u => (mgmt_cap s u, RNone)
+  | OStaleRemove id n => (stale_remove s id n, RNone)
   end.
 
 Definition run (s : st) (ops : list op) : st := fold_left (fun s o => fst (step s o)) ops s.
